@@ -73,10 +73,13 @@ def scenario(draw, tier="quick"):
         ops.append(op)
     n_clients = draw(st.sampled_from([1, 1, 2]))
     strategies = []
-    split = draw(st.integers(0, len(ops))) if n_clients == 2 else len(ops)
+    # a second strategy trades through its own client or (one time in three) through the SAME client: the cleared
+    # summary and its commission are per client and market, whatever strategy the bets belong to
+    two = n_clients == 2 or draw(st.integers(0, 2)) == 0
+    split = draw(st.integers(0, len(ops))) if two else len(ops)
     strategies.append(gen.strategy_spec("A", client=0, script=[{"m": 0, "at": 1, "ops": ops[:split]}] if ops[:split] else []))
-    if n_clients == 2:
-        strategies.append(gen.strategy_spec("B", client=1, script=[{"m": 0, "at": 1, "ops": ops[split:]}] if ops[split:] else []))
+    if two:
+        strategies.append(gen.strategy_spec("B", client=1 if n_clients == 2 else 0, script=[{"m": 0, "at": 1, "ops": ops[split:]}] if ops[split:] else []))
     # the executing update, then (sometimes) a price replacement of a resting order, then passive trades
     steps.append({"dt": 1000, "k": "book", "rc": []})
     if draw(st.integers(0, 2)) == 0:
@@ -250,6 +253,8 @@ def _evaluate(sc, lb):
             classes.add("cleared-with-orders")
         if len(lb.clients) > 1:
             classes.add("two-clients")
+        elif len(sc["strategies"]) > 1:
+            classes.add("two-strategies-one-client")
     return nontrivial, classes
 
 
